@@ -43,7 +43,7 @@ CLAIMS = {
    note='magnitudes <= 2^500, counts < 2^52; "equal up to rounding" across groupings is a forward error bound and is NOT decided; jls_statistics_add (1000 s of FP SAT) runs in the thorough tier only'),
  'C02': dict(cat='proof', ref='DESIGN.md §6 C02, §9',
    text='exact part only: jls_dt_buffer_to_f64 proved to convert every sample (arbitrary witness index) of i4/u4 buffers of any length to the double value the format defines (loop contracts); the 8..64-bit and float conversions are generated by a macro and are checked by bounded unwinding (<= 6 samples, every bit pattern); min/max/count handling of the reductions is the subject of the C20 units',
-   note='second session: level-1 summariser jls_core_fsr_summary1 under a BOUNDED unit (one block, 2 entries of 3 samples, arbitrary doubles incl. NaN/inf: min/max exact over the finite samples, all-gap entry is NaN, one index entry per block); block lookup jls_core_fsr_seek bounded (3 index levels); numeric tolerances (mean precision, std ratio, averaged means) are not decided; summary level selection and strides (jls_core_fsr_statistics, fsr_seek) have no unit; u1 conversion runs in the thorough tier only; bounded units are labelled bounded in the evidence and not counted as proof'),
+   note='second session: level-1 summariser jls_core_fsr_summary1 under a BOUNDED unit (one block, 2 entries of 3 samples, arbitrary doubles incl. NaN/inf: min/max exact over the finite samples, all-gap entry is NaN, one index entry per block); block lookup jls_core_fsr_seek bounded (3 index levels); numeric tolerances (mean precision, std ratio, averaged means) are not decided; summary level selection and strides (jls_core_fsr_statistics, fsr_seek) have no unit; the u1 conversion unit exhausts memory (attic); bounded units are labelled bounded in the evidence and not counted as proof'),
  'C11': dict(cat='proof', ref='DESIGN.md §6 C11, §9',
    text='index mechanics of the annotation writer: for every decimation factor 2..65536 and every reachable fill state of the index levels, jls_wr_ts_anno / jls_wr_ts_close append entries in order, never exceed a level buffer, write a full level as INDEX immediately followed by its SUMMARY (same signal/track/level/timestamp), push its first entry one level up and re-establish the level invariant; recursion of commit() fully unwound (depth <= 16)',
    note='second session: jls_core_ts_seek under a BOUNDED unit (3 index levels, chunks of 1..3 entries: the chosen entry neither skips an item >= t nor starts more than one item before t); quick tier: start states with levels 1..3 allocated (upper levels are created by the code under test), all 15 levels in the thorough tier; jls_core_annotations iteration checked on chains of up to 3 chunks with all callees modelled (seek is asked for exactly timestamp + offset); jls_core_ts_seek itself has no unit (F10 found and fixed through native reproduction); file composition assumed'),
